@@ -370,6 +370,135 @@ def _shrink(ops, link=False):
     return cur
 
 
+def reconf_correspondence(ck, ok, tier, replay=None):
+    """per-channel RECONFIGURE on a real ChannelFactory (stub gateway, frames injected as the receiver thread would) vs the
+    extracted Reconf model (selector 22): generated sequences of RECONFIGURE / the channel arriving (new(id), object kept) /
+    the object dropped / setcallback / gateway-wide RECONFIGURE / a data item carrying a Python-2 str and a Python-3 str
+    (their types on arrival tell the coercion that was applied); observed per operation: the message this side sends
+    (CHANNEL_CLOSE / CHANNEL_LAST_MESSAGE) and where the item went (dropped / queue / callback) with which setting"""
+    if not ok:
+        return
+    if replay and not (replay.get("signature") or "").startswith("reconfigure-"):
+        return
+    import gc
+    import struct
+
+    from evh.fakeio import stub_gateway
+    from execnet import gateway_base as gb
+
+    rng = random.Random(ck.seed * 131 + 7)
+    payload = b"M\x00\x00\x00\x01aN\x00\x00\x00\x01b@\x00\x00\x00\x02Q"   # (py2str 'a', py3str 'b')
+
+    def decode_used(x):
+        a, b = x
+        return [1 if isinstance(a, str) else 0, 1 if isinstance(b, bytes) else 0]
+
+    def run_real(g, ops):
+        gw, io = stub_gateway(1)
+        gw._strconfig = (bool(g[0]), bool(g[1]))
+        f = gw._channelfactory
+        cid = 8
+        box, holder, out = [], [], []
+        for op in ops:
+            n0 = len(io.written)
+            used = [0, 0, 0]
+            if op[0] == 0:
+                gb.Message(gb.Message.RECONFIGURE, cid, gb.dumps_internal((bool(op[1]), bool(op[2])))).received(gw)
+            elif op[0] == 1:
+                if not holder:
+                    holder.append(f.new(cid))
+            elif op[0] == 2:
+                del holder[:]
+            elif op[0] == 3:
+                if holder and holder[0]._items is not None:
+                    holder[0].setcallback(box.append)
+            elif op[0] == 4:
+                gb.Message(gb.Message.RECONFIGURE, 0, gb.dumps_internal((bool(op[1]), bool(op[2])))).received(gw)
+            elif op[0] == 5:
+                nb = len(box)
+                gb.Message(gb.Message.CHANNEL_DATA, cid, payload).received(gw)
+                if len(box) > nb:
+                    used = [3] + decode_used(box[-1])
+                elif holder and holder[0]._items is not None and holder[0]._items.qsize():
+                    used = [2] + decode_used(holder[0]._items.get())
+                else:
+                    used = [1, 0, 0]
+            gc.collect()
+            em = 0
+            for fr in io.written[n0:]:
+                if len(fr) >= 9:
+                    code = struct.unpack("!bii", fr[:9])[0]
+                    em = 1 if code == gb.Message.CHANNEL_CLOSE else (2 if code == gb.Message.CHANNEL_LAST_MESSAGE else 9)
+            out += [em] + used
+        for h in holder:
+            h._closed = True
+        return out
+
+    cases = []
+    if replay:
+        cases.append((replay["example"]["g"], replay["example"]["ops"]))
+    else:
+        for _ in range(400 if tier == "quick" else 8000):
+            g = [rng.randint(0, 1), rng.randint(0, 1)]
+            ops = []
+            for _ in range(rng.choice([2, 4, 8, 14])):
+                k = rng.choice([0, 0, 1, 1, 2, 3, 4, 5, 5])
+                ops.append([k, rng.randint(0, 1), rng.randint(0, 1)] if k in (0, 4) else [k])
+            cases.append((g, ops))
+        # the history of the repaired defect and the re-adoption history, always
+        cases.append(([1, 0], [[0, 0, 1], [1], [5]]))
+        cases.append(([1, 0], [[1], [3], [2], [0, 0, 1], [4, 1, 1], [1], [5]]))
+    try:
+        mouts = Model().run([[22] + g + [x for op in ops for x in op] for g, ops in cases])
+    except Exception as e:  # noqa
+        ck.broke("correspondence", "modelrun-reconf", repr(e))
+        return
+    for (g, ops), mo in zip(cases, mouts):
+        try:
+            real = run_real(g, ops)
+        except Exception as e:  # noqa
+            ck.fail("reconfigure-sequence-raises:" + type(e).__name__, {"g": g, "ops": ops, "error": repr(e)[:200]})
+            continue
+        ck.case(("reconf", tuple(g), repr(ops)), nontrivial=len(ops) > 2)
+        ex = {"g": g, "ops": ops, "impl": real, "model": list(mo)}
+        # the property itself, on the real objects: a RECONFIGURE never makes this side send CLOSE / LAST_MESSAGE
+        for i, op in enumerate(ops):
+            if op[0] != 2 and real[4 * i] != 0:
+                ck.fail("reconfigure-closes-the-channel" if op[0] == 0 else "reconfigure-history-sends-close-without-a-drop", ex)
+                break
+        else:
+            # ... and an item that is delivered is loaded with the setting of the last RECONFIGURE since this side knows the id
+            # (before that: the gateway's setting at the moment the channel object appeared) -- tracked here without the model
+            cur, gwc, held, cbreg, okc = None, list(g), False, False, True
+            for i, op in enumerate(ops):
+                if op[0] == 0:
+                    cur = [op[1], op[2]]
+                elif op[0] == 1:
+                    if not held:
+                        held = True
+                        if cur is None:
+                            cur = list(gwc)
+                elif op[0] == 2:
+                    if held:
+                        held = False
+                        if not cbreg:
+                            cur = None
+                elif op[0] == 3:
+                    if held and not cbreg:
+                        cbreg = True
+                elif op[0] == 4:
+                    gwc = [op[1], op[2]]
+                elif op[0] == 5 and real[4 * i + 1] in (2, 3):
+                    want = [1 if cur[0] else 0, 1 if cur[1] else 0]
+                    if real[4 * i + 2:4 * i + 4] != want:
+                        okc = False
+                        ck.fail("reconfigure-setting-not-applied-to-a-delivered-item", {**ex, "op_index": i, "expected_setting": cur})
+                        break
+            if okc and list(mo) != real:
+                ck.broke("correspondence", "reconf-model-vs-impl", ex)
+    ck.count("reconf_sequences", len(cases))
+
+
 def ids_correspondence(ck, ok, tier, replay=None):
     """id allocation: random sequences of fresh allocations on either side and adoptions of the peer's ids on two
     real ChannelFactory objects (initiator start count from Gateway.__init__, worker from serve()) vs the Ids model"""
